@@ -17,7 +17,7 @@ mod hist;
 
 static STAGE: std::sync::atomic::AtomicU8 = std::sync::atomic::AtomicU8::new(0);
 pub(crate) fn stage(n: u8) { STAGE.store(n, std::sync::atomic::Ordering::SeqCst); }
-fn stage_name() -> &'static str { match STAGE.load(std::sync::atomic::Ordering::SeqCst) { 0 => "build", 1 => "parse", 2 => "inject", 3 => "encode", 4 => "encode2", _ => "decode" } }
+fn stage_name() -> &'static str { match STAGE.load(std::sync::atomic::Ordering::SeqCst) { 0 => "build", 1 => "parse", 2 => "inject", 3 => "encode", 4 => "encode2", 6 => "side_effects", _ => "decode" } }
 const FID: u32 = 3; // the instrumented function (imports: 0 cond, 1 probe, 2 obs)
 
 fn blockty(v: &Value) -> we::BlockType {
